@@ -7,6 +7,7 @@ package main
 import (
 	"fmt"
 	"go/types"
+	"math"
 	"net"
 	"strings"
 
@@ -21,6 +22,8 @@ var intrinsics = map[string]intrinsic{}
 var harnessPrims = map[string]intrinsic{}
 
 var modelsUsed = map[string]int{}
+
+var uniqueHandles = map[string]*value{}
 
 var globalOverrides = map[string]func(i *interpreter, pkg *ssa.Package){}
 
@@ -463,6 +466,40 @@ func init() {
 	// ---- error-message formatting that would fork on every input byte ----
 	intrinsics["time.quote"] = func(fr *frame, a []value) value { return "\"<input>\"" }
 
+	// ---- math (concrete floats only) ----
+	f1 := func(name string, f func(float64) float64) {
+		intrinsics[name] = func(fr *frame, a []value) value { return f(a[0].(float64)) }
+	}
+	f2 := func(name string, f func(float64, float64) float64) {
+		intrinsics[name] = func(fr *frame, a []value) value { return f(a[0].(float64), a[1].(float64)) }
+	}
+	f2("math.archMax", math.Max)
+	f2("math.archMin", math.Min)
+	f2("math.Max", math.Max)
+	f2("math.Min", math.Min)
+	f1("math.archFloor", math.Floor)
+	f1("math.archCeil", math.Ceil)
+	f1("math.archTrunc", math.Trunc)
+	f1("math.archSqrt", math.Sqrt)
+	f1("math.Sqrt", math.Sqrt)
+	f1("math.archLog", math.Log)
+	f1("math.archExp", math.Exp)
+	f1("math.Floor", math.Floor)
+	f1("math.Ceil", math.Ceil)
+	f1("math.Abs", math.Abs)
+	f1("math.Log2", math.Log2)
+	f2("math.Pow", math.Pow)
+	intrinsics["math.Float64bits"] = func(fr *frame, a []value) value { return cint(math.Float64bits(a[0].(float64))) }
+	intrinsics["math.Float64frombits"] = func(fr *frame, a []value) value {
+		return math.Float64frombits(uint64(asInt64(a[0])))
+	}
+	intrinsics["math.Float32bits"] = func(fr *frame, a []value) value {
+		return cint(math.Float32bits(float32(a[0].(float64))))
+	}
+	intrinsics["math.Float32frombits"] = func(fr *frame, a []value) value {
+		return float64(math.Float32frombits(uint32(asInt64(a[0]))))
+	}
+
 	// ---- easyjson unsafe casts ----
 	intrinsics["github.com/mailru/easyjson/jlexer.bytesToStr"] = func(fr *frame, a []value) value {
 		return bytesToString(a[0].([]value))
@@ -639,12 +676,17 @@ func init() {
 
 	// ---- net helpers with netip / unique internals ----
 	intrinsics["net.ParseIP"] = func(fr *frame, a []value) value {
-		s := argStr(a[0])
-		ip := net.ParseIP(s)
-		return fromGoBytes(ip)
+		s, ok := a[0].(string)
+		if !ok {
+			return notHandled{} // symbolic text: interpret the real parser
+		}
+		return fromGoBytes(net.ParseIP(s))
 	}
 	intrinsics["net.ParseCIDR"] = func(fr *frame, a []value) value {
-		s := argStr(a[0])
+		s, ok := a[0].(string)
+		if !ok {
+			return notHandled{}
+		}
 		ip, n, err := net.ParseCIDR(s)
 		if err != nil {
 			T := namedType(fr.i.prog, "net", "ParseError")
@@ -653,6 +695,20 @@ func init() {
 		}
 		var cell value = structure{fromGoBytes(n.IP), fromGoBytes(n.Mask)}
 		return tuple{fromGoBytes(ip), &cell, iface{}}
+	}
+	// unique.Make: canonical handle per distinct (concrete) value
+	intrinsics["unique.Make"] = func(fr *frame, a []value) value {
+		ks, ok := keyString(a[0])
+		if !ok {
+			panic(unsupported("unique.Make of a symbolic value"))
+		}
+		p := uniqueHandles[ks]
+		if p == nil {
+			p = new(value)
+			*p = copyVal(a[0])
+			uniqueHandles[ks] = p
+		}
+		return structure{p}
 	}
 	intrinsics["(net.IP).String"] = func(fr *frame, a []value) value {
 		return ipString(a[0].([]value))
